@@ -184,6 +184,9 @@ def check_c_contract(N, NW, k):
 
 
 def replay(rep):
+    if rep['replay'].get('protocol') == 'values_only':
+        from props import _purity
+        return _purity.replay_protocol(rep['replay'])
     r = rep['replay']
     if r.get('function') == 'dpss':
         NW = float.fromhex(r['NW']) if isinstance(r['NW'], str) else r['NW']
@@ -416,3 +419,7 @@ def run(ctx):
             ctx.violation('guard/dpss/NW-ge-half-N', 'dpss(%d, %r) returned although NW >= N/2' % (N, NW), {'function': 'dpss-guard', 'N': N, 'NW': NW})
         except AssertionError:
             pass
+
+    # ---------------- results depend on the VALUES given only: call protocol (repeat, aliasing, buffer reuse, memory layout, integer / single-precision dtypes)
+    from props import _purity
+    _purity.run_protocol(ctx, ['dpss'])
